@@ -153,7 +153,12 @@ func (r *Recorder) flush() {
 
 // Main is the TestMain body of every property package.
 func Main(m *testing.M) {
-	Silence()
+	if os.Getenv("VERIF_REAL_LOGGER") == "1" {
+		// keep the library's own logger (its code is part of what the race detector watches), errors only
+		syslog.Level(syslog.LvError)
+	} else {
+		Silence()
+	}
 	code := m.Run()
 	Rec.flush()
 	os.Exit(code)
